@@ -144,14 +144,16 @@ def plan(pid: str, tier: str, seed: int) -> dict:
                                     ("chain2", "diamond", "failbranch", "firstof", "cycle2")]),
         )
     if pid == "C02":
-        progs = core + extra + [PR.by_name(n) for n in SYN]
+        progs = core + extra + [PR.by_name(n) for n in SYN] + PR.split_family()
         nseed = 24 if quick else 400
         return dict(
             progs=progs, props=["C02_SameOutcome", "C02_StartOnce", "C02_NoReexec", "C02_ExecExact", "C01_SameData"],
             jobs=lambda refs: [{"kind": "schedule", "prog": p, "seeds": s, "opts": {"p_withhold": 0.2}}
                                for p in progs for s in chunks(range(seed * 1000, seed * 1000 + nseed), 12)],
             mc=[(n, {"AnyOrder": "TRUE", "MaxWithhold": 1}, {}) for n in ("chain2", "diamond", "selfloop", "failbranch")]
-               + [("chain2", {"AnyOrder": "TRUE", "MaxWithhold": 2}, {})]
+               + [("chain2", {"AnyOrder": "TRUE", "MaxWithhold": 2}, {}), ("orsplit", {"AnyOrder": "TRUE"}, {}),
+                  ("ornone", {"AnyOrder": "TRUE", "MaxWithhold": 1}, {})]
+               + ([] if quick else [("orsplit", {"AnyOrder": "TRUE", "MaxWithhold": 1}, {}), ("orfail", {"AnyOrder": "TRUE", "MaxWithhold": 1}, {})])
                + ([] if quick else [(n, {"AnyOrder": "TRUE", "MaxWithhold": 2}, {"depth": 60}) for n in
                                     ("diamond", "cycle2", "firstof", "multitask", "poll", "transient", "fanout")]),
         )
@@ -159,7 +161,7 @@ def plan(pid: str, tier: str, seed: int) -> dict:
         # jump programs: "the only exception is the explicit target of a jump" (the bypass flag must be consumed)
         progs = join_family() + [PR.by_name("selfloop"), PR.by_name("cycle2")] + \
                 [p for p in loop_family() if p["name"] in ("loopfanin", "cyc3", "fwd", "twotargets")] + \
-                random_dags(seed, 6 if quick else 100)
+                PR.split_family() + random_dags(seed, 6 if quick else 100)
         nseed = 12 if quick else 50
         return dict(
             progs=progs, props=["C03_StartsOnlyWhenAllowed", "C03_ExecOnlyStarted", "C03_NoRunBelowHalt"],
@@ -167,13 +169,15 @@ def plan(pid: str, tier: str, seed: int) -> dict:
                                for p in progs for s in chunks(range(seed * 1000, seed * 1000 + nseed), 12)],
             mc=[(p, {"AnyOrder": "TRUE", "MaxEarly": 1}, {}) for p in
                 ("diamond", "firstof", "quorumall", "multimerge", "failbranch", "firstofallfail", "mmfail")]
+               + [("orsplit", {"AnyOrder": "FALSE", "MaxEarly": 2}, {})]
+               + ([] if quick else [("orfail", {"AnyOrder": "TRUE", "MaxEarly": 1}, {})])
                + ([] if quick else [(p, {"AnyOrder": "TRUE", "MaxEarly": 2, "MaxWithhold": 1}, {"depth": 70}) for p in
                                     ("diamond", "firstof", "quorum", "quorumfail", "quorumimpossible", "deep")]),
         )
     if pid == "C05":
         progs = [p for p in core + extra if p["name"] != "stopped"] + [PR.by_name(n) for n in SYN] + \
                 [p for p in join_family() if p["name"] in ("firstofslow", "firstofallfail", "quorumimpossible", "mmfail", "deep")] + \
-                PR.region_family()
+                PR.region_family() + PR.split_family()
         nseed = 20 if quick else 300
         return dict(
             progs=progs, props=["C05_QuietMeansDone", "C05_SucceededIsHonest", "C05_FailureReported",
